@@ -1,3 +1,243 @@
 package main
 
-func (w *World) checkRootHandling(P string, f *Facts, r *Roles, ef *ExecFacts) {}
+import (
+	"fmt"
+	"go/token"
+	"sort"
+
+	"golang.org/x/tools/go/ssa"
+)
+
+// posTest describes a guard "R.Pos() is (non-)zero".
+type posTest struct {
+	Recv    ssa.Value
+	NonZero bool
+}
+
+// posTests returns the Pos()-against-0 tests that guard block b.
+func posTests(b *ssa.BasicBlock) []posTest {
+	var out []posTest
+	for _, a := range guardAtoms(b) {
+		bo, ok := a.V.(*ssa.BinOp)
+		if !ok || (bo.Op != token.EQL && bo.Op != token.NEQ) {
+			continue
+		}
+		x, y := bo.X, bo.Y
+		if k, ok := constInt(x); ok && k == 0 {
+			x, y = y, x
+		}
+		k, ok := constInt(y)
+		if !ok || k != 0 {
+			continue
+		}
+		recv, ok := isMethodCall(x, "Pos")
+		if !ok {
+			continue
+		}
+		out = append(out, posTest{Recv: recv, NonZero: (bo.Op == token.NEQ) == a.Pol})
+	}
+	return out
+}
+
+// posEqTests returns guards of b of the form A.Pos() == B.Pos() (true polarity).
+func hasPosEqualityGuard(b *ssa.BasicBlock) bool {
+	for _, a := range guardAtoms(b) {
+		bo, ok := a.V.(*ssa.BinOp)
+		if !ok {
+			continue
+		}
+		_, okx := isMethodCall(bo.X, "Pos")
+		_, oky := isMethodCall(bo.Y, "Pos")
+		if !okx || !oky {
+			continue
+		}
+		if (bo.Op == token.EQL && a.Pol) || (bo.Op == token.NEQ && !a.Pol) {
+			return true
+		}
+	}
+	return false
+}
+
+type sink struct {
+	In   ssa.Instruction
+	Kind string
+}
+
+// resultSinks follows v through phis and value-preserving conversions to the places where it becomes
+// part of a result (stored into an array that is appended) or is handed to another repository function.
+func resultSinks(v ssa.Value) []sink {
+	var out []sink
+	seen := map[ssa.Value]bool{}
+	var walk func(v ssa.Value)
+	walk = func(v ssa.Value) {
+		if seen[v] {
+			return
+		}
+		seen[v] = true
+		for _, r := range referrers(v) {
+			switch x := r.(type) {
+			case *ssa.Phi:
+				walk(x)
+			case *ssa.ChangeType:
+				walk(x)
+			case *ssa.MakeInterface:
+				walk(x)
+			case *ssa.ChangeInterface:
+				walk(x)
+			case *ssa.Store:
+				if x.Val == v {
+					if ia, ok := x.Addr.(*ssa.IndexAddr); ok {
+						if _, isAlloc := ia.X.(*ssa.Alloc); isAlloc {
+							out = append(out, sink{x, "appended to a result"})
+						}
+					}
+				}
+			case *ssa.Call:
+				if sc := staticCallee(x); sc != nil && inRepo(sc) {
+					for _, a := range x.Call.Args {
+						if a == v {
+							out = append(out, sink{x, "passed to " + sc.Name()})
+						}
+					}
+				}
+			}
+		}
+	}
+	walk(v)
+	return out
+}
+
+func (w *World) checkRootHandling(P string, f *Facts, r *Roles, ef *ExecFacts) {
+	at := ef.Axis
+	if at == nil {
+		return
+	}
+	docRule(P, "R01.5a", "D contradiction", "the store makes the root its own parent, so in every axis selector a value obtained from C.Parent() may become part of a result, or be handed to a collecting helper, only under a test that C is not the root (C.Pos() != 0 on the same cursor): the root has no parent and is not its own ancestor; climbing must stop at it.")
+	docRule(P, "R01.5b", "D contradiction", "in the ancestor axes no cursor is kept out of the result by a test of its own Pos() against 0: the root node is an ancestor of every other node.")
+	docRule(P, "R01.5c", "D contradiction", "in the sibling/following/preceding selectors the enumeration P.Children() of the context node's parent P is not control-dependent on a test of P.Pos(): children of the root do have siblings, following and preceding nodes.")
+	docRule(P, "R01.6", "D search-then-use", "a slice of a Children() list whose bound is a search index is taken only on a path where the search matched (an equality of Pos() values guards it): attribute and namespace context nodes are not among their parent's children and have no siblings.")
+
+	var axes []string
+	for n := range at.Arms {
+		axes = append(axes, n)
+	}
+	sort.Strings(axes)
+	n5a, n5c, n6 := 0, 0, 0
+	for _, axis := range axes {
+		arm := at.Arms[axis]
+		if arm.Callee == nil {
+			continue
+		}
+		closure := staticReach(arm.Callee, func(fn *ssa.Function) bool { return fnPkgKey(fn) == "exec" })
+		var fns []*ssa.Function
+		for fn := range closure {
+			fns = append(fns, fn)
+		}
+		sort.Slice(fns, func(i, j int) bool { return fns[i].Name() < fns[j].Name() })
+		for _, fn := range fns {
+			allInstrs(fn, func(in ssa.Instruction) {
+				call, ok := in.(*ssa.Call)
+				if !ok {
+					return
+				}
+				// (a) uses of C.Parent()
+				if recv, ok := isMethodCall(call, "Parent"); ok && call.Call.IsInvoke() {
+					for _, s := range resultSinks(call) {
+						guarded := false
+						for _, pt := range posTests(s.In.Block()) {
+							if pt.Recv == recv && pt.NonZero {
+								guarded = true
+							}
+						}
+						n5a++
+						w.check(P, "R01.5a", fmt.Sprintf("axis %s: parent of a cursor %s in %s", axis, s.Kind, fn.Name()), s.In.Pos(), guarded,
+							fmt.Sprintf("C.Parent() is %s; guarded by `C.Pos() != 0`: %v (for the root, Parent() is the root itself)", s.Kind, guarded))
+					}
+					// (c) P.Children() must not depend on P.Pos()
+					if axis == "following" || axis == "following-sibling" || axis == "preceding" || axis == "preceding-sibling" {
+						for _, rr := range referrers(call) {
+							c2, ok := rr.(*ssa.Call)
+							if !ok {
+								continue
+							}
+							if rcv, ok := isMethodCall(c2, "Children"); ok && rcv == ssa.Value(call) {
+								bad := false
+								for _, pt := range posTests(c2.Block()) {
+									if pt.Recv == ssa.Value(call) {
+										bad = true
+									}
+								}
+								n5c++
+								w.check(P, "R01.5c", fmt.Sprintf("axis %s: sibling enumeration in %s", axis, fn.Name()), c2.Pos(), !bad,
+									fmt.Sprintf("P.Children() of the context node's parent is enumerated under a test of P.Pos(): %v (then children of the root get no siblings/following/preceding nodes)", bad))
+							}
+						}
+					}
+				}
+			})
+			// (b) ancestor axes: appended cursor not excluded by its own Pos() test
+			if axis == "ancestor" || axis == "ancestor-or-self" {
+				allInstrs(fn, func(in ssa.Instruction) {
+					st, ok := in.(*ssa.Store)
+					if !ok {
+						return
+					}
+					ia, ok := st.Addr.(*ssa.IndexAddr)
+					if !ok {
+						return
+					}
+					if _, isAlloc := ia.X.(*ssa.Alloc); !isAlloc {
+						return
+					}
+					if !types_isCursor(st.Val, r) {
+						return
+					}
+					bad := false
+					for _, pt := range posTests(st.Block()) {
+						if pt.Recv == st.Val && pt.NonZero {
+							bad = true
+						}
+					}
+					w.check(P, "R01.5b", fmt.Sprintf("axis %s: cursor collected in %s", axis, fn.Name()), st.Pos(), !bad,
+						fmt.Sprintf("the collected cursor is appended only when its own Pos() != 0: %v (the root would never be reported as an ancestor)", bad))
+				})
+			}
+			// R01.6
+			if axis == "following-sibling" || axis == "preceding-sibling" {
+				allInstrs(fn, func(in ssa.Instruction) {
+					sl, ok := in.(*ssa.Slice)
+					if !ok {
+						return
+					}
+					if _, ok := isMethodCall(sl.X, "Children"); !ok {
+						return
+					}
+					nonConst := false
+					for _, b := range []ssa.Value{sl.Low, sl.High} {
+						if b == nil {
+							continue
+						}
+						if _, isC := constInt(b); !isC {
+							nonConst = true
+						}
+					}
+					if !nonConst {
+						return
+					}
+					n6++
+					g := hasPosEqualityGuard(sl.Block())
+					w.check(P, "R01.6", fmt.Sprintf("axis %s: sibling slice in %s", axis, fn.Name()), sl.Pos(), g,
+						fmt.Sprintf("slice of the parent's children with a search index as bound; taken only when the search matched: %v", g))
+				})
+			}
+		}
+	}
+	w.floor(P, "R01.5a", 6)
+	w.floor(P, "R01.5b", 2)
+	w.floor(P, "R01.5c", 4)
+	w.floor(P, "R01.6", 2)
+}
+
+func types_isCursor(v ssa.Value, r *Roles) bool {
+	return r.Cursor != nil && v.Type() == r.Cursor.Obj().Type()
+}
